@@ -94,6 +94,10 @@ func (alloc *BootMemAllocator) AllocFrame() (mm.Frame, *kernel.Error) {
 		// The above adjustment might push lastAllocFrame outside of the
 		// region end (e.g kernel ends at last page in the region)
 		if alloc.lastAllocFrame > regionEndFrame {
+			// Nothing in this region can be used. Leave the cursor at the
+			// region end so that the first frame of the next region does
+			// not look as if it had already been handed out.
+			alloc.lastAllocFrame = regionEndFrame
 			return true
 		}
 
